@@ -1,0 +1,57 @@
+// Copyright © 2022-2026 Obol Labs Inc. Licensed under the terms of a Business Source License 1.1
+
+//go:build verif
+
+package aggsigdb
+
+import "github.com/obolnetwork/charon/core"
+
+// Verification hooks (build tag verif): read-only views of the stores' internal state.
+// They add no behaviour and are not compiled into normal builds.
+
+// EntryVerif is one stored entry together with whether it is listed in the by-duty index.
+type EntryVerif struct {
+	Duty       core.Duty
+	PubKey     core.PubKey
+	SubcommIdx core.SubcommitteeIndex
+	Data       core.SignedData
+	Indexed    bool
+}
+
+func snapshotVerif(data map[memDBKey]core.SignedData, keysByDuty map[core.Duty][]memDBKey) (entries []EntryVerif, indexSize int) {
+	for key, val := range data {
+		indexed := false
+
+		for _, k := range keysByDuty[key.duty] {
+			if k == key {
+				indexed = true
+			}
+		}
+
+		entries = append(entries, EntryVerif{Duty: key.duty, PubKey: key.pubKey, SubcommIdx: key.subcommIdx, Data: val, Indexed: indexed})
+	}
+
+	for _, keys := range keysByDuty {
+		indexSize += len(keys)
+	}
+
+	return entries, indexSize
+}
+
+// SnapshotVerif returns the stored entries (the stored values themselves, not clones), the total
+// number of index entries and the length of blockedQueries. It does not synchronise with the Run
+// goroutine: the caller must only call it while that goroutine is parked in its select.
+func (db *MemDB) SnapshotVerif() (entries []EntryVerif, indexSize int, blocked int) {
+	entries, indexSize = snapshotVerif(db.data, db.keysByDuty)
+
+	return entries, indexSize, len(db.blockedQueries)
+}
+
+// SnapshotVerif returns the stored entries (the stored values themselves, not clones) and the
+// total number of index entries, read under the read lock.
+func (m *MemDBV2) SnapshotVerif() (entries []EntryVerif, indexSize int) {
+	m.RLock()
+	defer m.RUnlock()
+
+	return snapshotVerif(m.data, m.keysByDuty)
+}
